@@ -198,15 +198,17 @@ func decodeStorage(raw []byte) thor.Bytes32 {
 	return thor.BytesToBytes32(raw[1:]) // short strings only (<= 32 bytes)
 }
 
-// newDB returns the database of a case and a function giving a fresh handle on the same data (a restart: empty caches).
-func newDB(c *Case) (*muxdb.MuxDB, func() *muxdb.MuxDB) {
+// newDB returns the database of a case, a function giving a fresh handle on the same data (a restart: empty caches)
+// and a function that releases the underlying in-memory LevelDB (every case must call it: goleveldb keeps goroutines
+// and buffers per open instance).
+func newDB(c *Case) (*muxdb.MuxDB, func() *muxdb.MuxDB, func()) {
 	if c.Cached {
 		eng := triesim.MemEngine()
 		opts := &muxdb.Options{TrieNodeCacheSizeMB: 1, TrieCachedNodeTTL: c.CacheTTL, TrieHistPartitionFactor: 1, TrieDedupedPartitionFactor: 1}
-		return muxdb.NewWithEngine(eng, opts), func() *muxdb.MuxDB { return muxdb.NewWithEngine(eng, opts) }
+		return muxdb.NewWithEngine(eng, opts), func() *muxdb.MuxDB { return muxdb.NewWithEngine(eng, opts) }, func() { eng.Close() }
 	}
 	db := muxdb.NewMem()
-	return db, func() *muxdb.MuxDB { return db } // NewMem has no caches
+	return db, func() *muxdb.MuxDB { return db }, func() { db.Close() } // NewMem has no caches
 }
 
 func readCommitted(db *muxdb.MuxDB, root trie.Root) *commitObs {
@@ -334,7 +336,8 @@ func runReal(c *Case) (rr realRun) {
 			rr.err = fmt.Sprint("panic: ", r)
 		}
 	}()
-	db, freshDB := newDB(c)
+	db, freshDB, closeDB := newDB(c)
+	defer closeDB()
 	stater := state.NewStater(db)
 	roots := []trie.Root{{}}
 	st := stater.NewState(roots[0])
@@ -1279,7 +1282,7 @@ func main() {
 		}
 	}
 	r := hx.NewRand(ctx.Seed)
-	nt := ctx.Scale(7000, 200000)
+	nt := ctx.Scale(7000, 120000)
 	if os.Getenv("C06_SKIP_TRIE") != "" {
 		nt = 0
 	}
@@ -1293,7 +1296,7 @@ func main() {
 		runTrieCases(ctx, batch)
 		done += n
 	}
-	ns := ctx.Scale(3000, 60000)
+	ns := ctx.Scale(3000, 40000)
 	rs := r.Fork(2)
 	for done := 0; done < ns; {
 		n := min(100, ns-done)
